@@ -22,7 +22,17 @@ FAILCLOSED = {
                 'VersionPredicate.__init__': ('c16e27520daa3494', [',']),
                 'VersionPredicate._parse_predicate': ('2b3d9a6b4d4649ae', [_A]),
                 'VersionPredicate.satisfied_by': ('b6a42fa6f990b983', [False, True])})],
-    'generate_code': [dict(_FC, functions={'convert_version_to_str': {'defaults': {}}})]}
+    'generate_code': [dict(_FC, functions={'convert_version_to_str': {'defaults': {}}})],
+    # statement-level translation (T17): every statement of these bodies is translated, so no shapes; what is NOT in the translated
+    # text is pinned: single undecorated runtime-bound definitions, defaults, the class (no bases, these methods only), the two class
+    # attributes read through the imported module, and what the names re / functools / packaging / operator / _ denote
+    'generate_code17': [dict(_FC, imports=dict(_FC['imports'], _='oslo_utils._i18n:_'),
+        classes={'VersionPredicate': {'bases': [], 'methods': ['__init__', '_parse_predicate', 'satisfied_by']}},
+        functions={'convert_version_to_int': {'defaults': {}}, 'convert_version_to_tuple': {'defaults': {}},
+                   'is_compatible': {'defaults': {'same_major': 'True'}},
+                   'VersionPredicate.__init__': {'defaults': {}}, 'VersionPredicate._parse_predicate': {'defaults': {}},
+                   'VersionPredicate.satisfied_by': {'defaults': {}}},
+        constants=['VersionPredicate._PREDICATE_MATCH', 'VersionPredicate._COMP_MAP'])]}
 
 def generate():
     failclosed.check_all(FAILCLOSED['generate'])
@@ -467,6 +477,7 @@ VBIND = ' {V : Type} (vparse : bytes -> option V)'
 
 def generate_code17():
     """Gen/C17_Code.v"""
+    failclosed.check_all(FAILCLOSED['generate_code17'])
     m = repo_import('oslo_utils.versionutils')
     tree = repo_ast('oslo_utils/versionutils.py')
     regexes = []
